@@ -720,7 +720,10 @@ public:
       res = res && m_alloc_env.is_top();
     }
     if (crab_domain_params_man::get().region_deallocation()) {
-      res = res && m_rgn_equiv_classes.is_top();
+      // a freshly created value (make_top, set_to_top) has an empty
+      // union-find, which carries no information either.
+      res = res && (m_rgn_equiv_classes.is_top() ||
+                    m_rgn_equiv_classes.is_empty());
     }
     if (crab_domain_params_man::get().region_tag_analysis()) {
       res = res && m_tag_env.is_top();
